@@ -198,6 +198,7 @@ class GroupScores(Scores):
             neg_groups=self.pos_groups,
             score_class="neg" if self.score_class == BinaryLabel.pos else "pos",
             equal_class="neg" if self.equal_class == BinaryLabel.pos else "pos",
+            group_names=self.groups,
             is_sorted=True,
         )
 
